@@ -163,6 +163,12 @@ Theorem C08_entry_points_validate : forall V (validate : V -> result V) v,
 Proof. exact routes_validate. Qed.
 Print Assumptions C08_entry_points_validate.
 
+(* a raw key value given for a relationship attribute (Entry.profile -> Profile.account -> Account.id, any depth) is validated by the
+   innermost key attribute: EntityMeta._get_by_raw_pkval_ forwards from_db on the nested call (scanned from source on every run) *)
+Theorem C08_raw_key_through_relations : forall V (validate : V -> result V) hops v, raw_key_outcome validate hops v = validate v.
+Proof. exact raw_key_validates. Qed.
+Print Assumptions C08_raw_key_through_relations.
+
 (* non-vacuity: size=16, min=0, max=300 is an accepted declaration, accepts 0 and 300, rejects -1 and 301 *)
 Example C08_nonvacuous :
   exists c, init_of true (mk_int_decl (Some 16) (Some false) (Some 0) (Some 300)) = Ok c
